@@ -81,6 +81,7 @@ pub struct Unit {
     pub path_map: Vec<(String, String)>,
     pub uses: Vec<String>,
     pub method_map: Vec<(String, String)>,
+    pub iter_sources: Vec<String>, // `@iter-source m ..`: methods (of stubs) that return the VxIter model
     pub items: Vec<Item>,
     pub trusted_allow: Vec<String>,
     pub assumptions: Vec<String>,
@@ -165,7 +166,7 @@ pub fn preprocess(text: &str, dir: &std::path::Path, depth: usize) -> Result<Str
                 match is_directive(l) {
                     Some(("unit", _)) | Some(("serves", _)) => continue,
                     Some(("prelude", a)) => { flush(&mut buf, &mut pending_fn, &mut out); out.push_str(&format!("@prelude {}\n", a)); }
-                    Some((d, _)) if matches!(d, "fn" | "lift" | "raw" | "spec" | "type" | "impl" | "endimpl" | "const" | "derive" | "use" | "enum-eq" | "path-map" | "type-map" | "method-map" | "assume" | "not-under-contract" | "stub-eq" | "trusted-allow") => {
+                    Some((d, _)) if matches!(d, "fn" | "lift" | "raw" | "spec" | "type" | "impl" | "endimpl" | "const" | "derive" | "use" | "enum-eq" | "path-map" | "type-map" | "method-map" | "iter-source" | "assume" | "not-under-contract" | "stub-eq" | "trusted-allow") => {
                         flush(&mut buf, &mut pending_fn, &mut out);
                         pending_fn = matches!(d, "fn" | "lift");
                         buf.push(l.to_string());
@@ -215,6 +216,7 @@ pub fn parse(text: &str) -> Result<Unit, String> {
             "serves" => unit.serves = a.split_whitespace().map(String::from).collect(),
             "prelude" => { for p in a.split_whitespace() { if !unit.prelude.iter().any(|x| x == p) { unit.prelude.push(p.to_string()); } } }
             "enum-eq" => unit.enum_eq.extend(full_trim.split_whitespace().map(String::from)),
+            "iter-source" => unit.iter_sources.extend(full_trim.split_whitespace().map(String::from)),
             "stub-eq" => unit.stub_eq.extend(full_trim.split_whitespace().map(String::from)),
             "type-map" => {
                 // `From => To`
